@@ -905,3 +905,87 @@ Proof.
   destruct (set_finish ms slots) as [vs'|]; [|discriminate].
   apply some_inj in Hs. injection Hs as -> ->. reflexivity.
 Qed.
+
+(* ---------------- format ---------------- *)
+
+(* X.691 19.2-19.5 (canonical) / X.696 16.2: the preamble bit of an OPTIONAL / DEFAULT component is 0
+   exactly when the component is absent or equal to its DEFAULT — at every place the C asks *)
+Theorem cpresence_is_spec ms : forall vs, cpresence false ms vs = spec_preamble ms vs.
+Proof.
+  induction ms as [|m r IH]; intros vs; destruct vs as [|v vs']; try reflexivity.
+  cbn [cpresence spec_preamble]. rewrite IH. f_equal.
+  destruct m; try reflexivity; destruct v; try reflexivity.
+  cbn [is_marker absent]. rewrite dflt_eqb_false_spec. reflexivity.
+Qed.
+
+(* X.690 11.5 / X.691 19.5 / X.696 16: a value equal to the DEFAULT is not encoded, in either
+   representation (member absent, member stored) and in every syntax *)
+Theorem default_not_encoded d t v std :
+  is_default_value v d = true ->
+  cder false (CDef d t) (VSome v) = Some [] /\ cder false (CDef d t) VNone = Some [] /\
+  cuper false std (CDef d t) (VSome v) = Some [] /\ cuper false std (CDef d t) VNone = Some [] /\
+  coer false (CDef d t) (VSome v) = Some [] /\ coer false (CDef d t) VNone = Some [].
+Proof.
+  intros H. rewrite <- dflt_eqb_false_spec in H. cbn [cder cuper coer]. rewrite H. repeat split; reflexivity.
+Qed.
+
+(* ... and a value different from the DEFAULT is encoded as the component's type says *)
+Theorem non_default_encoded d t v std :
+  is_default_value v d = false ->
+  cder false (CDef d t) (VSome v) = cder false t v /\
+  cuper false std (CDef d t) (VSome v) = cuper false std t v /\
+  coer false (CDef d t) (VSome v) = coer false t v.
+Proof.
+  intros H. rewrite <- dflt_eqb_false_spec in H. cbn [cder cuper coer]. rewrite H. repeat split; reflexivity.
+Qed.
+
+(* the generated comparison against what the standard calls equal: the only deviation is a TRUE
+   stored as 0xff against DEFAULT TRUE *)
+Theorem dflt_cmp_partial raw v d :
+  (raw = false \/ v <> VBool true \/ d <> VBool true) -> dflt_eqb raw v d = is_default_value v d.
+Proof.
+  intros H. destruct v, d; try reflexivity. cbn [dflt_eqb is_default_value].
+  destruct b, b0, raw; try reflexivity. exfalso. destruct H as [H|[H|H]]; congruence.
+Qed.
+
+Theorem der_default_true_refuted :
+  exists t v, cwf_d t = true /\ cwt_d t v = true /\ cder true t v <> spec_der t v /\
+              cder true t v = Some [48; 3; 1; 1; 255] /\ spec_der t v = Some [48; 0].
+Proof.
+  exists (CSeq 64 [CDef (VBool true) (CBase (TBool 4))]), (VSeq [VSome (VBool true)]).
+  vm_compute. repeat split; try reflexivity. discriminate.
+Qed.
+
+(* X.690 10.3: what SET_encode_der writes is the members' encodings, every member once ... *)
+Theorem cder_set_content raw tg ms vs bs :
+  forallb has_tag ms = true -> cder raw (CSet tg ms) (VSeq vs) = Some bs ->
+  exists es idx, enc_cms (cder raw) ms vs = Some es /\
+                 bs = tlv tg true (concat (map (fun i => nth i es []) idx)) /\
+                 NoDup idx /\ (forall i, In i idx <-> (i < length ms)%nat).
+Proof.
+  intros Ht Hd. cbn [cder] in Hd.
+  destruct (enc_cms (cder raw) ms vs) as [es|] eqn:Ee; [|discriminate]. apply some_inj in Hd. subst bs.
+  destruct (enc_cms_nth (cder raw) ms vs es Ee) as (Hlv & Hle & _).
+  destruct (set_order_pick raw ms vs es Hlv Hle Ht) as (idx & Eo & Hnd & Hcov).
+  exists es, idx. rewrite Eo. auto.
+Qed.
+
+(* ... in ascending order of the key (class, then number) of the tag table used *)
+Definition key_le {A} (a b : Z * A) : Prop := tag_key (fst a) <= tag_key (fst b).
+
+Lemma insert_keyed_sorted {A} (x : Z * A) l : StronglySorted key_le l -> StronglySorted key_le (insert_keyed x l).
+Proof.
+  induction 1 as [|y tl Hs IH Hall]; cbn [insert_keyed]; [repeat constructor|].
+  destruct (tag_key (fst x) <=? tag_key (fst y)) eqn:E.
+  - constructor; [constructor; assumption|]. constructor; [unfold key_le; lia|].
+    eapply Forall_impl; [|exact Hall]. unfold key_le. intros; lia.
+  - constructor; [exact IH|].
+    eapply Permutation_Forall; [symmetry; apply insert_keyed_perm|].
+    constructor; [unfold key_le; lia|exact Hall].
+Qed.
+
+Theorem sort_keyed_sorted {A} (l : list (Z * A)) : StronglySorted key_le (sort_keyed l).
+Proof. induction l as [|x tl IH]; cbn; [constructor|]. apply insert_keyed_sorted. exact IH. Qed.
+
+Theorem tag2el_sorted ms : StronglySorted key_le (tag2el ms).
+Proof. apply sort_keyed_sorted. Qed.
